@@ -267,6 +267,12 @@ where
             // Stop the write
             self.wait_not_busy(Delay::new_write())?;
             self.write_byte(STOP_TRAN_TOKEN)?;
+            // The card takes one byte to react to the stop token and is busy
+            // afterwards. Skip that byte and wait, or the next command's
+            // not-busy check sees the idle byte and the command goes out
+            // while the card is still programming.
+            let _ = self.read_byte()?;
+            self.wait_not_busy(Delay::new_write())?;
         }
         Ok(())
     }
